@@ -1,6 +1,7 @@
 // drv_group: executes CheckGroup() / CheckElement() of every libTMCG class that carries group parameters (C06)
 // on cases computed by TLC from spec/Group.tla, and records what the library's own generators produce.
 //   drv_group hash  <in.ndjson> <out.ndjson>          oracle: {"u":string,"m":modulus} -> {"u","m","r": H(u) mod m}
+//   drv_group prefetch <maxp> <maxq> <out.ndjson>     oracle answers for the strings a derivation over the box can ask for (cache)
 //   drv_group cases <in.ndjson> <out.ndjson>          one parameter set per line, via stream/mpz constructor
 //   drv_group nbr   <in.ndjson> <out.ndjson> [shard nshards]  neighbourhoods / catalogues of well-formed sets (compares itself)
 //   drv_group box   <in.json>   <out.json>            whole box against the accepting set (compares itself)
@@ -437,6 +438,27 @@ static int mode_hash(const std::string &in, const std::string &outp) {
 	return 0;
 }
 
+// mode prefetch: warms the oracle table with the strings a verifiable-generator derivation over the box can ask for
+// ("LibTMCG|p|q|ggen|" followed by up to `depth` passed-over candidates 0, 1, p-1).  Only a cache: the spec decides which
+// strings it uses and names every string it misses (mode hash answers those).
+static void prefetch_rec(FILE *out, const std::string &u, mpz_srcptr p, int depth) {
+	Mpz r; tmcg_mpz_shash(r, u); mpz_mod(r, r, p);
+	json o; o["u"] = u; o["m"] = zj(p); o["r"] = zj(r); fprintf(out, "%s\n", o.dump().c_str());
+	if (depth == 0) return;
+	Mpz c[3]; mpz_set_ui(c[0], 0); mpz_set_ui(c[1], 1); mpz_sub_ui(c[2], p, 1);
+	for (int k = 0; k < 3; k++) prefetch_rec(out, u + b62(c[k]) + "|", p, depth - 1);
+}
+static int mode_prefetch(long maxp, long maxq, const std::string &outp) {
+	FILE *out = fopen(outp.c_str(), "w");
+	for (long p = 3; p <= maxp; p++) for (long q = 2; q <= maxq; q++) {
+		if ((p - 1) % q) continue;
+		Mpz P(p), Q(q);
+		prefetch_rec(out, "LibTMCG|" + b62(P) + "|" + b62(Q) + "|ggen|", P, 2);
+	}
+	fclose(out);
+	return 0;
+}
+
 // ------------------------------------------------------------------------------------------------ mode: cases
 // {"id":..,"cls":..,"v":{F,G,E,le,canon,n},"via":"stream"|"mpz","f":{name:value,...},"cg":true,"el":[a,...],"obs":[names]}
 static FMap fields_of(const json &jf) {
@@ -810,6 +832,7 @@ int main(int argc, char **argv) {
 	try {
 		if (m == "hash" && argc == 4) return mode_hash(argv[2], argv[3]);
 		if (m == "cases" && argc == 4) return mode_cases(argv[2], argv[3]);
+		if (m == "prefetch" && argc == 5) return mode_prefetch(atol(argv[2]), atol(argv[3]), argv[4]);
 		if (m == "nbr" && argc >= 4) return mode_nbr(argv[2], argv[3], argc > 4 ? atol(argv[4]) : 0, argc > 5 ? atol(argv[5]) : 1, argc > 6 ? atol(argv[6]) : 0);
 		if (m == "box" && argc == 4) return mode_box(argv[2], argv[3]);
 		if (m == "gen" && argc == 5) return mode_gen(strtoul(argv[2], 0, 10), atol(argv[3]), argv[4]);
